@@ -493,3 +493,26 @@ def body_children(ctx):
     ch = [c_ for f_ in db.with_helpers(vc) for c_ in walk_func(f_) if isinstance(c_, ast.Call) and P.matches(c_, "$n.get_children()") and isinstance(c_.func.value, ast.Name) and c_.func.value.id in {a_.arg for a_ in f_.args.args}]
     gc = db.func("parsetree.ControlLine.get_children")
     ctx.check(bool(ch) and P.has(gc, "return self.nodes"), "generator-reads", db.where(vc), "the empty-body test does not read the control line's own node list", "get_children() is the list the lexer filled")
+
+
+@rule("C03.writeline-whole", min_instances=2, props=["C02", "C19"])
+def writeline_whole(ctx):
+    """PythonPrinter.writeline writes the text it is given as one piece: only its first physical line receives the indentation, so the continuation lines of a multi-line expression / string literal reach the module unchanged"""
+    from .common import resolve_deep
+    db = ctx.db
+    fn = db.func("pygen.PythonPrinter.writeline")
+    par = pn(fn, 1)
+    writes = [n for g in db.with_helpers(fn) for n in walk_func(g)
+              if isinstance(n, ast.Call) and isinstance(n.func, ast.Attribute) and n.func.attr == "write" and dotted(n.func.value) in ("self.stream", "stream")]
+    ctx.require(writes, "no stream.write in PythonPrinter.writeline (anchor)")
+    for i, w in enumerate(writes):
+        loops = [a for a in facts_ancestors(w) if isinstance(a, (ast.For, ast.While, ast.ListComp, ast.GeneratorExp))]
+        arg = resolve_deep(fn, w.args[0]) if w.args else None
+        ind = [n for n in ast.walk(arg) if isinstance(n, ast.Call) and isinstance(n.func, ast.Attribute) and n.func.attr == "_indent_line"] if arg is not None else []
+        ctx.check(not loops, "write#%d:once" % i, db.where(w),
+                  "writeline writes its text piece by piece in a loop (%s): every physical line of a multi-line statement is indented separately, which changes the contents of string literals that span lines" % " ".join(src(loops[0]).split())[:70] if loops else "",
+                  "the text is written by one call")
+        whole = bool(ind) and all(len(c.args) >= 1 and isinstance(resolve_deep(fn, c.args[0]), ast.Name) and resolve_deep(fn, c.args[0]).id == par for c in ind)
+        ctx.check(whole or (not ind and isinstance(arg, ast.AST) and par in {n.id for n in ast.walk(arg) if isinstance(n, ast.Name)}), "write#%d:whole" % i, db.where(w),
+                  "the indentation is not applied to the whole text handed to writeline (`%s`)" % src(w.args[0])[:80] if w.args else "",
+                  "_indent_line(%s) applied to the text as given" % par)
